@@ -144,7 +144,8 @@ private:
     size_t i = bitPos / WLS;
     size_t j = bitPos % WLS;
 
-    size_t mask = ~(~((size_t)0) << bitsField) << j;
+    // (maxVal copes with fields as wide as the word, a shift does not)
+    size_t mask = maxVal(bitsField) << j;
     data[i] = (data[i] & ~mask) | (value << j);
 
     if (j + bitsField > WLS) {
